@@ -235,6 +235,18 @@ def exec_semantics(ck, tier, rng):
             except RemoteError as e:
                 if "line 4" not in str(e) or "ValueError: line four" not in str(e):
                     ck.fail("string-source-traceback-line-wrong", {"text": str(e)[-400:]})
+        # the channel closes by itself (with the error) whatever ends the code: also a BaseException that is no Exception
+        for kind, src in (("GeneratorExit", "channel.send('before')\nraise GeneratorExit('ge')"),
+                          ("BaseException-subclass", "channel.send('before')\nclass Abort(BaseException):\n    pass\nraise Abort('ab')"),
+                          ("SystemExit", "channel.send('before')\nraise SystemExit(3)")):
+            ch = gw.remote_exec(src)
+            ck.case(("baseexception-body", kind), nontrivial=True)
+            st, val = X.with_timeout(lambda ch=ch: (ch.receive(X.T), ch.waitclose(10)), 25)
+            if st == "exc" and isinstance(val, RemoteError):
+                if kind.split("-")[0] not in str(val) and "Abort" not in str(val):
+                    ck.fail("remote-error-text-lacks-the-exception-type:" + kind, {"text": str(val)[-300:]})
+            else:
+                ck.fail("channel-does-not-close-with-the-error-when-the-body-ends-by:" + kind, {"status": st, "value": repr(val)[:200]})
         # channel bound, __name__, explicit close refused, auto-close exactly at the end
         ch = gw.remote_exec(X.W_NAME)
         if list(ch.receive(X.T)) != ["__channelexec__", True, "Channel"]:
